@@ -5,6 +5,7 @@ package main
 import (
 	"fmt"
 	"go/types"
+	"net/url"
 	"path"
 	"path/filepath"
 	"reflect"
@@ -12,7 +13,11 @@ import (
 	"strings"
 	"unicode"
 	"unicode/utf8"
+	"unsafe"
 
+	"github.com/go-openapi/jsonreference"
+	"github.com/go-openapi/spec"
+	"github.com/go-openapi/swag"
 	"golang.org/x/tools/go/ssa"
 )
 
@@ -114,6 +119,36 @@ func toNative(v Value, rt reflect.Type) (reflect.Value, bool) {
 			return reflect.Value{}, false
 		}
 		return reflect.ValueOf(t.fval()).Convert(rt), true
+	case reflect.Struct:
+		sv, ok := v.(*StructVal)
+		if !ok || len(sv.F) != rt.NumField() {
+			return reflect.Value{}, false
+		}
+		out := reflect.New(rt).Elem()
+		for i := range sv.F {
+			fv, ok := toNative(sv.F[i], rt.Field(i).Type)
+			if !ok {
+				return reflect.Value{}, false
+			}
+			f := out.Field(i)
+			reflect.NewAt(f.Type(), unsafe.Pointer(f.UnsafeAddr())).Elem().Set(fv)
+		}
+		return out, true
+	case reflect.Ptr:
+		pv, ok := v.(*PtrVal)
+		if !ok || (!pv.Nil.IsTrue() && !pv.Nil.IsFalse()) {
+			return reflect.Value{}, false
+		}
+		if pv.R == nil || pv.Nil.IsTrue() {
+			return reflect.Zero(rt), true
+		}
+		ev, ok := toNative(pv.R.Load(), rt.Elem())
+		if !ok {
+			return reflect.Value{}, false
+		}
+		out := reflect.New(rt.Elem())
+		out.Elem().Set(ev)
+		return out, true
 	case reflect.Slice:
 		s, ok := v.(*SliceVal)
 		if !ok {
@@ -261,4 +296,20 @@ func (x *Exec) tryNative(name string, fn *ssa.Function, args []Value) (Value, bo
 	return tv, true
 }
 
-func registerExtraNatives(e *Engine, r func(string, interface{})) {}
+func registerExtraNatives(e *Engine, r func(string, interface{})) {
+	r("github.com/go-openapi/spec.MustCreateRef", spec.MustCreateRef)
+	r("github.com/go-openapi/jsonreference.MustCreateRef", jsonreference.MustCreateRef)
+	r("github.com/go-openapi/jsonreference.New", jsonreference.New)
+	r("(*net/url.URL).String", (*url.URL).String)
+	r("net/url.Parse", url.Parse)
+	r("github.com/go-openapi/swag.ToGoName", swag.ToGoName)
+	r("github.com/go-openapi/swag.ToVarName", swag.ToVarName)
+	r("github.com/go-openapi/swag.ToFileName", swag.ToFileName)
+	r("github.com/go-openapi/swag.ToJSONName", swag.ToJSONName)
+	r("github.com/go-openapi/swag.ToHumanNameLower", swag.ToHumanNameLower)
+	r("github.com/go-openapi/swag.ToHumanNameTitle", swag.ToHumanNameTitle)
+	r("github.com/go-openapi/swag.ToCommandName", swag.ToCommandName)
+	r("github.com/go-openapi/swag.Camelize", swag.Camelize)
+	r("github.com/go-openapi/swag.ContainsStrings", swag.ContainsStrings)
+	r("github.com/go-openapi/swag.ContainsStringsCI", swag.ContainsStringsCI)
+}
